@@ -29,6 +29,9 @@ REPO = os.path.dirname(W.REPO_SRC)
 
 
 # ------------------------------------------------------------------ program generator
+STRING_PATTERNS = ("(a|b)*c", "(ab|ba)+c", "[ab]+c$")
+
+
 class G15:
     def __init__(self, rng):
         self.rng = rng
@@ -107,13 +110,18 @@ class G15:
             fname = self.fresh("fact")
             return ("var %s = function %s_r(n){ return n <= 1 ? %s : (n * %s_r(n - 1)) %% 9973; };\nlog(%d, %s(%d));"
                     % (fname, fname, self.expr(vis), fname, t, fname, rng.randrange(2, 7)))
-        if r < 0.85:
+        if r < 0.82:
             a = self.fresh("ar")
             x = self.fresh("x")
             return "var %s = (%s) => (%s + %s) %% 9973; log(%d, %s(%s));" % (a, x, x, self.expr(vis), t, a, self.expr(vis))
-        if r < 0.85:
+        if r < 0.84:
             return "log(%d, arguments.length + (arguments.length ? arguments[0] : 0));" % t
-        if r < 0.87:
+        if r < 0.86:
+            # a pattern given as a string (compiled per call) on a subject long enough to be polled
+            pat = rng.choice(STRING_PATTERNS)
+            return "log(%d, '%s'.search('%s') + '|' + ('%s'.match('%s') || ['none'])[0].length);" % (
+                t, "ab" * 80 + "c", pat, "ba" * 70 + "c", pat)
+        if r < 0.88:
             # enumeration order of an object with data properties and several accessor names
             o = self.fresh("ob")
             names = [self.fresh("k") for _ in range(rng.randrange(2, 5))]
@@ -123,10 +131,10 @@ class G15:
             props.append("%s: 2" % self.fresh("d"))
             return ("var %s = {%s}; var %s_k = []; for (var %s_q in %s) { %s_k.push(%s_q); } log(%d, %s_k.join(',')); "
                     "log(%d, Object.keys(%s).join(','));" % (o, ", ".join(props), o, o, o, o, o, t, o, t, o))
-        if r < 0.89:
+        if r < 0.90:
             # values rendered by the engine itself (object/function/array stringification, typeof)
             return "log(%d, String({q: %s}) + '|' + typeof function(){} + '|' + [1, [2, 3]].length + '|' + String(function zzf(){}).length);" % (t, self.expr(vis))
-        if r < 0.93:
+        if r < 0.94:
             # built-in objects are per context: what one program stores on them, or finds there, must
             # not depend on what other contexts of the process did (small shared pool of slot names)
             slot = rng.choice(("Math.zq%d", "JSON.zq%d", "String.zq%d", "Object.prototype.zq%d", "Error.prototype.zq%d",
@@ -187,6 +195,9 @@ FAILING = [
     ("fail:deep-recursion", "function rr8(nn8){ return 1 + rr8(nn8 + 1); } rr8(0);", {"memory_limit": 20000}),
     ("fail:loop-forever", "var ww9 = 0; while(true){ ww9++; }", {"time_limit_work": 20000}),
     ("fail:regex-syntax", "var rr10 = new RegExp('(');"),
+    ("fail:timeout-after-string-patterns",
+     "var ss11 = '" + "ab" * 80 + "c'; var nn11 = ss11.search('(a|b)*c') + ss11.search('(ab|ba)+c') + ss11.search('[ab]+c$'); while(true){ nn11++; }",
+     {"time_limit_work": 60000}),
 ]
 
 
@@ -239,9 +250,14 @@ def variants(seed, tier):
 
 
 # ------------------------------------------------------------------ worker (fresh interpreter, hash seed from the environment)
+_CURSOR = {}
+
+
 def eval_case(src, variant, rng, cid=None):
     from microjs import Context
-    W.reset(tick=variant["tick"], epoch=variant["epoch"], wall_epoch=variant["wall_epoch"])
+    # virtual time never goes back within one process: each eval starts after the previous one ended
+    cur = _CURSOR.get(variant["j"], variant["epoch"])
+    W.reset(tick=variant["tick"], epoch=cur, wall_epoch=variant["wall_epoch"])
     track = OffsetTrack()
     if variant["clock_faults"]:
         W.schedule(rng.randrange(50, 3000), lambda: jump_mono(track, rng.choice((0.5, 30.0, 1000.0)), "mono_jump"))
@@ -262,6 +278,9 @@ def eval_case(src, variant, rng, cid=None):
         out = run_eval(ctx, src, 60_000_000)
     finally:
         sys.stdout = old
+    _CURSOR[variant["j"]] = W.now() + 1.0
+    if out["kind"] == "limit_time":
+        out["msg"] = None       # where the deadline lands (interpreter step, regex step) words the message
     return {"kind": out["kind"], "value": out.get("value"), "cls": out.get("cls"), "msg": out.get("msg"),
             "log": log, "stdout": buf.getvalue()[:2000]}
 
